@@ -161,6 +161,10 @@ type Prop struct {
 	// Shrink returns a smaller scenario for which fails() is still true (optional).
 	Shrink func(sc any, fails func(any) bool) any
 	// PerChunk is how many scenarios a worker process runs before it is recycled.
+	// Warmup: run one fixed throw-away scenario first in every worker process.
+	Warmup bool
+	// WarmupGen builds the warm-up scenario (nil = Gen with a fixed seed).
+	WarmupGen func() any
 	PerChunk int
 	// Count per tier (scenarios); wall-clock caps are the runner's business.
 	Quick, Thorough int
@@ -232,3 +236,11 @@ func DDMin[T any](items []T, budget *int, test func([]T) bool) []T {
 
 // T is the *testing.T of the worker entry point; synctest bubbles need one.
 var T *testing.T
+
+// WarmupScenario returns the scenario a worker process runs first and discards.
+func (p *Prop) WarmupScenario() any {
+	if p.WarmupGen != nil {
+		return p.WarmupGen()
+	}
+	return p.Gen(NewRNG(0xC01D), "quick")
+}
